@@ -229,7 +229,23 @@ fn run_doc(root: &Path, k: usize, ext: &str, text: &str, probes: &[Val], files: 
         prepare(&dir, files);
         let cfgp = root.join(format!("c{}{}.{}", k, tag, ext));
         let t = text.replace("@D@", &dir.to_string_lossy());
-        std::fs::write(&cfgp, &t).unwrap();
+        // every fourth document is reached through a symbolic link whose target's name says nothing (or something
+        // else) about the format: the format is that of the path the caller names
+        static TURN: std::sync::atomic::AtomicUsize = std::sync::atomic::AtomicUsize::new(0);
+        match TURN.fetch_add(1, std::sync::atomic::Ordering::SeqCst) % 8 {
+            3 => {
+                let real = root.join(format!("blob{}{}", k, tag));
+                std::fs::write(&real, &t).unwrap();
+                std::os::unix::fs::symlink(&real, &cfgp).unwrap();
+            }
+            7 => {
+                let other = if ext == "json" { "yaml" } else { "json" };
+                let real = root.join(format!("blob{}{}.{}", k, tag, other));
+                std::fs::write(&real, &t).unwrap();
+                std::os::unix::fs::symlink(&real, &cfgp).unwrap();
+            }
+            _ => std::fs::write(&cfgp, &t).unwrap(),
+        }
         (dir, cfgp, t)
     };
 
